@@ -47,8 +47,8 @@ func init() {
 			"timestamp / entry type / certificate / extensions / issuer key hash / tree size / root hash / version / log id / signing key. " +
 			"non-trivial = (value case) zcrypto returned bytes or a decoded value that entered a comparison, or (verifier case) the unmutated signature verifies under Go crypto/*; " +
 			"distinct by hash of (kind, model value[, key, mutation])",
-		MinNontrivial:         15000,
-		MinNontrivialThorough: 700000,
+		MinNontrivial:         14000,
+		MinNontrivialThorough: 300000,
 		Shards:                16,
 		Assumptions: []string{
 			"reference encoder engines/cteng/ref6962.go written from RFC 6962 section 3 / RFC 5246 section 4 is correct (it shares no code with zcrypto)",
@@ -1219,7 +1219,7 @@ func (t *c16) maximalCases() {
 func runC16(c *core.Ctx) {
 	t := &c16{c: c, rng: c.Rng}
 	r := t.rng
-	nv := c.PerShard(c.Pick(6400, 300000))
+	nv := c.PerShard(c.Pick(6400, 200000))
 	for i := 0; i < nv; i++ {
 		id := fmt.Sprintf("val-%d", i)
 		switch k := i % 8; k {
@@ -1296,7 +1296,7 @@ func runC16(c *core.Ctx) {
 		c.Violation("verify:no-usable-log-key", "NewSignatureVerifier accepted none of the pool keys", "", nil)
 		return
 	}
-	nb := c.PerShard(c.Pick(1400, 70000))
+	nb := c.PerShard(c.Pick(1400, 40000))
 	for i := 0; i < nb; i++ {
 		t.verifierBase(i, usable)
 	}
